@@ -64,6 +64,9 @@ def run(tier, v):
     if len(set(embed)) < 6:
         raise vlib.ToolError("MC_C04 embed family incomplete")
     hellos += sorted(set(embed))          # opaque fields that look like records: always all of them
+    recver = []
+    vlib.tlc("MC_C04", pid=PID, workers=8, tag_sink=lambda tag, o: recver.append(bytes(o["bytes"])), env={"VERIF_FAM": "recver"}, timeout=1800, coverage=False)
+    hellos += sorted(set(recver))[:: (1 if tier == "thorough" else 3)]       # every record-layer version 3.0 .. 3.4
     req = os.path.join(wd, "base.req")
     vlib.write_ndjson(req, [{"id": i, "op": "hello", "bytes": h.hex()} for i, h in enumerate(hellos)])
     bout = os.path.join(wd, "base.out")
